@@ -51,6 +51,50 @@ def ensure_driver():
 class BuildError(Exception):
     pass
 
+def extract_fixture_facts():
+    """Facts of the positive-control crate /verif/fixtures (same driver, same flags), cached by content hash."""
+    os.makedirs(WORK, exist_ok=True)
+    ensure_driver()
+    fx = os.path.join(VERIF, 'fixtures')
+    fdir = os.path.join(WORK, 'facts-fixture')
+    lock = open(os.path.join(WORK, 'lock-fixture'), 'w')
+    fcntl.flock(lock, fcntl.LOCK_EX)
+    try:
+        want = tree_hash(fx, extra=[DRIVER])
+        hfile = os.path.join(fdir, 'HASH')
+        files = [os.path.join(fdir, 'vfixture.facts.json')]
+        if os.path.exists(hfile) and open(hfile).read().strip() == want and os.path.exists(files[0]):
+            return files
+        shutil.rmtree(fdir, ignore_errors=True)
+        os.makedirs(fdir)
+        tdir = os.path.join(WORK, 'target-fixture')
+        shutil.rmtree(tdir, ignore_errors=True)
+        nonce = hashlib.sha1(('fx%s%s' % (time.time(), os.getpid())).encode()).hexdigest()
+        env = dict(os.environ)
+        env.update({'LD_LIBRARY_PATH': sysroot_lib() + ':' + env.get('LD_LIBRARY_PATH', ''), 'RUSTFLAGS': '-Zmir-opt-level=0 -Awarnings',
+                    'RUSTC_WORKSPACE_WRAPPER': DRIVER, 'CARGO_TARGET_DIR': tdir, 'CARGO_NET_OFFLINE': 'true', 'CARGO_INCREMENTAL': '0',
+                    'LDAP3_FACTS_CRATES': 'vfixture', 'LDAP3_FACTS_OUT': fdir, 'LDAP3_FACTS_NONCE': nonce})
+        env.pop('RUSTC_WRAPPER', None)
+        p = subprocess.run(['cargo', '+nightly', 'check', '--offline'], cwd=fx, env=env, capture_output=True, text=True)
+        if p.returncode != 0 or not os.path.exists(files[0]):
+            raise BuildError('the positive-control crate did not build:\n' + p.stderr[-3000:])
+        with open(files[0]) as fh:
+            if nonce not in fh.read(200):
+                raise BuildError('stale fixture fact file')
+        shutil.rmtree(tdir, ignore_errors=True)
+        shutil.rmtree(os.path.join(fx, 'target'), ignore_errors=True)
+        for junk in ('Cargo.lock',):
+            try:
+                os.remove(os.path.join(fx, junk))
+            except OSError:
+                pass
+        with open(hfile, 'w') as fh:
+            fh.write(want)
+        return files
+    finally:
+        fcntl.flock(lock, fcntl.LOCK_UN)
+        lock.close()
+
 def extract_facts(cfg='default', repo=None, quiet=True):
     """Return the list of fact files for configuration cfg, (re)extracting them from the working
     tree if its content hash differs from the cached extraction."""
